@@ -262,7 +262,8 @@ func (c *listCmd) Start() error {
 	if len(out) > 0 && !strings.HasSuffix(out, "\n") {
 		// The output ends in the middle of a line.
 		c.w.r.Probe("list_output_cut_mid_line")
-		c.w.midLineList = true
+		// Only a command that also reports failure excuses a parser panic.
+		c.w.midLineList = c.exitErr != nil || c.readErr != nil
 	}
 	c.data = []byte(out)
 	return nil
